@@ -240,7 +240,7 @@ def oracle_reading(inp, ref_cov):
 
 
 def gen_life(rng, inp):
-  """a life of the live GP object (see gp_life / oracle_reading): 1-3 steps; lie data only without a nugget (as before)"""
+  """a life of the live GP object (see gp_life / oracle_reading): 1-3 steps; lie data with and without a nugget"""
   dim, terms = len(inp["points"][0]), len(inp.get("mean_idx") or [])
   pts, vals, noise = list(inp["points"]), list(inp["values"]), list(inp["noise"])
   shift = [0.0] * dim
@@ -255,9 +255,7 @@ def gen_life(rng, inp):
     n = len(pts)
     lvl = sum(noise) / n
     op = rng.choice(["lies", "replace", "replace", "core_copy"])
-    if op == "lies":
-      if inp.get("tikhonov") is not None:
-        continue
+    if op == "lies":               # also on a GP with a nugget (the nugget replaces the lies' noise variance too: C02_m14)
       lies = [[rng.uniform(0, 1) for _ in range(dim)] for _ in range(rng.randint(1, 2))]
       steps.append(["lies", lies])
       pts, vals, noise = pts + lies, vals + [max(vals)] * len(lies), noise + [1e-12] * len(lies)
